@@ -10,6 +10,7 @@ import asyncio
 import random
 from typing import Any
 
+from sim import shadow as SH
 from sim import wire as W
 from sim.gateway import SimGateway
 from sim.world import Run
@@ -97,6 +98,8 @@ def gen(seed: int, tier: str) -> dict[str, Any]:
         "batch": 1 if rng.random() < 0.8 else 3,
         "first_channel": rng.choice([1, 7, 254]),
     }
+    # a second tunnel (own XKNX object, own gateway) lives in the same process and is busy meanwhile
+    cfg["shadow"] = rng.random() < 0.15
     return {"seed": seed, "tier": "S" if cfg["batch"] == 1 else "P", "config": cfg, "ops": ops,
             "gw": {"ack": acks, "first_channel": rng.choice([1, 1, 0, 254, 255])}, "fault_policy": policy}
 
@@ -177,7 +180,13 @@ def run(plan: dict[str, Any]) -> dict[str, Any]:
         for op in plan["ops"]:
             loop.at(t0 + op["t"], (lambda o=op: start_op(o)), label="op")
             tlast = max(tlast, op["t"])
+        sh = None
+        if cfg.get("shadow"):
+            sh = SH.start(R, SH.udp_tunnel_life(R, horizon=tlast + 0.4, seed=plan["seed"],
+                                                first_channel=(plan.get("gw") or {}).get("first_channel", 1),
+                                                period=max(0.02, (tlast + 0.5) / 12), start_after=min(0.2, tlast / 3)))
         await asyncio.sleep(tlast + 0.5)
+        await SH.finish(sh)
         # faults stop; give every send time to resolve (2 tries + reconnect + third try)
         gw.restart()
         R.faults.active = False
